@@ -189,18 +189,23 @@ CLAIMED = {
         "technique": "Coq proof (per-token lemmas over the rule-list parser, closed over all 256 characters; induction over segment lists) + differential correspondence",
     },
     "C06": {
-        "text": ("32 theorems (Coq, no axioms) over a model of differ.py (type dispatch, dicts, lists in all 2 x 5 "
+        "text": ("29 theorems (Coq, no axioms) over a model of differ.py (type dispatch, dicts, lists in all 2 x 5 "
                  "array/AoH modes, the zip_longest loop, the pop-a-DELETE-to-make-a-CHANGE step, both synchronisers, "
-                 "sets, purge/add-everything, DifferConfig lookups, print selection and exit state): truthful "
-                 "entries, SAME equal / CHANGE differs, leaf coverage (guard: no null facing a container with "
-                 "content = listed finding F3), leaf-level accounting as permutations in every mode and "
-                 "configuration, non-SAME iff the documents differ as data for all ten uniform mode pairs incl. "
-                 "key/deep (guards: no explicit tags = F1, well-keyed lists = F4), reflexivity, exit state = 1 iff "
-                 "a non-SAME entry; an entry's path text resolves (evaluator model) to the value the truthfulness "
-                 "theorem speaks about (guard = F5); every guard with a _refuted witness and a non-vacuity Example.  Per-path "
+                 "sets, purge/add-everything, the value comparison Differ._same_data, DifferConfig lookups, print "
+                 "selection and exit state): truthful entries, SAME equal / CHANGE differs as data for ALL document "
+                 "pairs, tags included (full since the repair of finding F1: values are compared as YAML data, not with "
+                 "Python ==), leaf coverage and leaf-level accounting as permutations in every mode and configuration "
+                 "(guard root_guard: not (one DOCUMENT is null and the other a container with content) - what is left "
+                 "of finding F3 after its repair below the root; document-vs-nothing is deliberate and pinned by the "
+                 "CLI tests), non-SAME iff the documents differ as data, full for the six uniform mode pairs without "
+                 "identity keys and, with the guard well-keyed lists = F4, for all ten incl. key/deep; reflexivity, "
+                 "exit state = 1 iff a non-SAME entry; an entry's path text resolves (evaluator model) to the value "
+                 "the truthfulness theorem speaks about (guard = F5); every remaining guard with a _refuted witness "
+                 "and a non-vacuity Example, every repaired finding with a positive Example.  Per-path "
                  "[rules]/[keys] configurations are covered by the accounting theorem and the judge, not by the "
                  "iff theorem.  Tie: pairs identical / derived by edits / unrelated x all mode pairs x "
-                 "configurations; entries compared as multisets of (action, parsed path, lhs, rhs)."),
+                 "configurations; entries compared as multisets of (action, parsed path, lhs, rhs); "
+                 "Differ._same_data compared directly on the root pair and the facing children."),
         "design_ref": "DESIGN.md section 4 (C06), docs/C06.md",
         "note": NOTE_COMMON + "  Python set iteration order is not modelled (entries are compared as multisets); resolved [rules]/[keys] tables are inputs taken from the real DifferConfig.",
         "technique": "Coq proof (structural induction over both trees; keyed-join lemma modulo Python key equality) + differential correspondence",
@@ -235,7 +240,7 @@ CLAIMED = {
                  "documents, so file vs STDIN delivery cannot change the outcome (empty-stream witness kept as "
                  "_refuted).  End-to-end corollaries instantiate the abstract results with the library MODELS: "
                  "yaml-get's lines = one rendering per item of the evaluator model's required query, exit 0 iff "
-                 "non-empty; yaml-diff exit 0 iff the two documents are data-equal (under C06's guards); "
+                 "non-empty; yaml-diff exit 0 iff the two documents are data-equal (positional options, real documents; tagged nodes included since C06's F1 was repaired); "
                  "merge_across / matrix deliver what MultiDoc.v's drivers return (reusing C18); yaml-paths prints "
                  "PathsPrint's lines.  JSON/YAML text and argparse are oracles.  Tie: the real main() "
                  "functions in-process (and the installed console scripts in the thorough tier) vs glue model "
